@@ -167,6 +167,64 @@ def frames(prop):
         'frame/an-invalidated-necessary-node-releases-its-children', 'src/node.rs', 'invalidate_node',
         [r'if\s+self\.is_necessary\(\)\s*\{\s*self\.remove_children\(state\);'], impl=EN))
 
+    # -- thin public wrappers and constructors the properties silently depend on: one-line forwarders pinned -----------
+    IS = 'impl IncrState'
+    IN = 'impl<T: Value> Incr<T>'
+    OB = 'impl<T: Value> Observer<T>'
+    add({'C19', 'C13', 'C07'}, lambda: F.body_is('frame/IncrState::stabilise-forwards', 'src/public.rs', 'stabilise', r'self\.inner\.stabilise\(\);', impl=IS))
+    add({'C19', 'C13'}, lambda: F.body_is('frame/State::stabilise-forwards', 'src/state.rs', 'stabilise', r'self\.stabilise_debug\(None\)', impl='impl State'))
+    add({'C08'}, lambda: F.body_is('frame/IncrState::is_stable-forwards', 'src/public.rs', 'is_stable', r'self\.inner\.is_stable\(\)', impl=IS))
+    add({'C19'}, lambda: F.body_is('frame/IncrState::set_max_height_allowed-forwards', 'src/public.rs', 'set_max_height_allowed',
+                                   r'self\.inner\.set_max_height_allowed\(new_max_height\)', impl=IS))
+    add({'C19'}, lambda: F.body_is('frame/IncrState::new_with_height-forwards', 'src/public.rs', 'new_with_height',
+                                   r'letinner=State::new_with_height\(max_height\);Self\{inner\}', impl=IS))
+    add({'C19'}, lambda: F.in_order('frame/State::new_with_height-configures-both-heaps-with-N', 'src/state.rs', 'new_with_height',
+                                    [r'recompute_heap:\s*RecomputeHeap::new\(max_height\)', r'adjust_heights_heap:\s*RefCell::new\(AdjustHeightsHeap::new\(max_height\)\)',
+                                     r'status:\s*Cell::new\(IncrStatus::NotStabilising\)'], impl='impl State'))
+    add({'C10', 'C09'}, lambda: F.body_is('frame/IncrState::unsubscribe-forwards', 'src/public.rs', 'unsubscribe', r'self\.inner\.unsubscribe\(token\)', impl=IS))
+    add({'C10', 'C09'}, lambda: F.body_is('frame/Observer::unsubscribe-forwards', 'src/public.rs', 'unsubscribe', r'self\.internal\.unsubscribe\(token\)', impl=OB))
+    add({'C10', 'C09'}, lambda: F.body_is('frame/Observer::subscribe-is-try_subscribe', 'src/public.rs', 'subscribe', r'self\.try_subscribe\(on_update\)\.unwrap\(\)', impl=OB))
+    add({'C05', 'C07', 'C10'}, lambda: F.body_is('frame/Incr::observe-registers-with-the-state', 'src/incr.rs', 'observe',
+                                          r'letincr=self\.clone\(\);letinternal=incr\.node\.state\(\)\.observe\(incr\);Observer::new\(internal\)', impl=IN))
+    add({'C06'}, lambda: F.body_is('frame/Incr::set_cutoff-forwards', 'src/incr.rs', 'set_cutoff', r'self\.node\.set_cutoff\(cutoff\);', impl=IN))
+    add({'C06'}, lambda: F.body_is('frame/Incr::set_cutoff_fn-forwards', 'src/incr.rs', 'set_cutoff_fn', r'self\.node\.set_cutoff\(Cutoff::Fn\(cutoff_fn\)\);', impl=IN))
+    add({'C06'}, lambda: F.body_is('frame/Incr::set_cutoff_fn_boxed-forwards', 'src/incr.rs', 'set_cutoff_fn_boxed',
+                                   r'self\.node\.set_cutoff\(Cutoff::FnBoxed\(Box::new\(cutoff_fn\)\)\);', impl=IN))
+    add({'C06'}, lambda: F.body_is('frame/Node::set_cutoff-installs-the-erased-cutoff', 'src/node.rs', 'set_cutoff',
+                                   r'self\.cutoff\.replace\(cutoff\.erased\(\)\);', impl='impl<R: Value> Incremental<R> for Node'))
+    add({'C06'}, lambda: F.body_is('frame/Cutoff::erased-wraps-itself', 'src/cutoff.rs', 'erased', r'ErasedCutoff::new\(self\)', impl='impl<T: ?Sized> Cutoff<T>'))
+    add({'C06'}, lambda: F.in_order('frame/nodes-start-with-the-PartialEq-cutoff', 'src/node.rs', 'create',
+                                    [r'let\s+cutoff\s*=\s*Cutoff::<R>::PartialEq\.erased\(\)', r'Self::create_inner\(state,\s*created_in,\s*kind,\s*cutoff\)'], impl='impl Node'))
+    add({'C09'}, lambda: F.in_order('frame/Incr::on_update-registers-a-handler-created-now', 'src/incr.rs', 'on_update',
+                                    [r'let\s+now\s*=\s*state\.stabilisation_num\.get\(\)', r'OnUpdateHandler::new\(now,', r'self\.node\.add_on_update_handler\(handler\)'], impl=IN))
+    add({'C09', 'C11'}, lambda: F.in_order('frame/Node::add_on_update_handler-counts-it', 'src/node.rs', 'add_on_update_handler',
+                                    [r'self\.num_on_update_handlers\.increment\(\)', r'ouh\.push\(Box::new\(handler\)\)'], impl='impl<R: Value> Incremental<R> for Node'))
+
+    # -- expert API surface (src/kind/expert.rs `public`, src/state/expert.rs) --------------------------------------
+    EP = 'impl<T: Value> Node<T>'
+    add({'C14'}, lambda: F.in_order('frame/a-new-expert-node-starts-unforced-uncounted-and-will-fire-all-callbacks', 'src/kind/expert.rs', 'new_obs',
+                                    [r'force_stale:\s*false\.into\(\)', r'num_invalid_children:\s*0\.into\(\)', r'will_fire_all_callbacks:\s*true\.into\(\)'], impl='impl ExpertNode'))
+    add({'C14'}, lambda: F.in_order('frame/a-new-edge-keeps-its-callback-and-has-no-index', 'src/kind/expert.rs', 'new',
+                                    [r'on_change:\s*RefCell::new\(on_change\)', r'index:\s*None\.into\(\)'], impl='impl<T> Edge<T>'))
+    add({'C14'}, lambda: F.in_order('frame/add_dependency_with-registers-the-callback', 'src/kind/expert.rs', 'add_dependency_with',
+                                    [r'Edge::new\(on\.clone\(\),\s*Some\(Box::new\(on_change\)\)\)', r'expert::add_dependency\(&self\.incr\.node\.packed\(\),\s*edge\)'], impl=EP))
+    add({'C14'}, lambda: F.in_order('frame/add_dependency-links-the-edge', 'src/kind/expert.rs', 'add_dependency',
+                                    [r'Edge::new\(on\.clone\(\),\s*None\)', r'expert::add_dependency\(&self\.incr\.node\.packed\(\),\s*edge\)'], impl=EP))
+    add({'C14'}, lambda: F.in_order('frame/remove_dependency-unlinks-that-edge', 'src/kind/expert.rs', 'remove_dependency',
+                                    [r'let\s+edge\s*=\s*dep\.edge\.upgrade\(\)\.unwrap\(\)', r'expert::remove_dependency\(&\*self\.incr\.node,\s*&\*edge\)'], impl=EP))
+    add({'C14'}, lambda: F.body_is('frame/expert-public-make_stale-forwards', 'src/kind/expert.rs', 'make_stale',
+                                   r'expert::make_stale\(&self\.incr\.node\.packed\(\)\)', impl=EP))
+    add({'C14'}, lambda: F.body_is('frame/expert-public-invalidate-forwards', 'src/kind/expert.rs', 'invalidate',
+                                   r'expert::invalidate\(&self\.incr\.node\.packed\(\)\)', impl=EP))
+    add({'C14'}, lambda: F.body_is('frame/state-expert-add_dependency-forwards', 'src/state/expert.rs', 'add_dependency', r'node\.expert_add_dependency\(edge\);'))
+    add({'C14'}, lambda: F.body_is('frame/state-expert-remove_dependency-forwards', 'src/state/expert.rs', 'remove_dependency', r'node\.expert_remove_dependency\(dyn_edge\);'))
+    add({'C14'}, lambda: F.body_is('frame/state-expert-make_stale-forwards', 'src/state/expert.rs', 'make_stale', r'node\.expert_make_stale\(\);'))
+    add({'C14'}, lambda: F.in_order('frame/an-expert-node-recomputes-only-after-before_main_computation', 'src/node.rs', 'recompute_one',
+                                    [r'Kind::Expert\(e\)\s*=>\s*match\s+e\.before_main_computation\(\)', r'Err\(Invalid\)\s*=>\s*\{\s*self\.invalidate_node\(state\);\s*state\.propagate_invalidity\(\);',
+                                     r'Ok\(\(\)\)\s*=>', r'e\.recompute\.borrow_mut\(\)\.as_mut\(\)', r'self\.maybe_change_value\(value,\s*state\)'], impl='impl ErasedNode for Node'))
+    add({'C14', 'C06'}, lambda: F.in_order('frame/child_changed-runs-the-edge-callback-of-an-expert-parent', 'src/node.rs', 'child_changed',
+                                    [r'Kind::Expert\(expert\)\s*=>\s*expert\.run_edge_callback\(child_index\)'], impl='impl ErasedNode for Node'))
+
     # -- only needed nodes are scheduled -------------------------------------------------------------------
     add({'C05'}, lambda: F.each_guarded(
         'frame/every-recompute_heap.insert-is-dominated-by-a-necessity-test-or-assertion', r'recompute_heap\s*\.\s*insert\(',
